@@ -1211,6 +1211,13 @@ void record(report_t& r, const std::string& key, const std::string& handle, cons
             const dprog_t& P, const std::vector<double>* x0, const answer_t& a, const std::string& oracle,
             const std::string& extra)
 {
+    // the report keeps the first three cases of a key: do not format the others (a mutant can produce millions)
+    static std::map<std::string, int> seen;
+    if (++seen[key] > 3)
+    {
+        r.violation(key, handle, "{}");
+        return;
+    }
     r.violation(key, handle,
                 jobj({{"what", jstr(what)},
                       {"program", P.json()},
